@@ -101,7 +101,7 @@ fn run_line(line: &str) -> String {
 
 fn main() {
     // panics inside the code under test are observations, not noise
-    std::panic::set_hook(Box::new(|_| { np::PANICS.fetch_add(1, std::sync::atomic::Ordering::SeqCst); }));
+    std::panic::set_hook(Box::new(|info| { np::PANICS.fetch_add(1, std::sync::atomic::Ordering::SeqCst); if std::env::var("HDV_DEBUG").is_ok() { eprintln!("panic: {info}"); } }));
     let args: Vec<String> = std::env::args().collect();
     let out = std::io::stdout();
     let mut out = std::io::BufWriter::new(out.lock());
